@@ -6,7 +6,7 @@ checks = {
  "C01": ("model_checking","TLC model-checks RoundTrip/SizeIsLen/PrefixIsError on the ideal codec (BebopWire.tla) over the bounded shape x context x value universe and validates, event by event, the trace of every encoder/decoder pairing of the real generated code against that model (Trace_Wire.tla)","7 C01","wire"),
  "C02": ("model_checking","TLC judges every Size/MarshalBebop/MarshalBebopTo (00/FF/A5-filled buffers, with and without slack)/EncodeBebop call of the real generated code against Enc/Size of the spec; SizeIsLen is model-checked on the same cases","7 C02","wire"),
  "C03": ("model_checking","BebopWire.Enc is the independent reference codec: real encoders must emit its bytes (any map order), real decoders must accept its encodings incl. permuted map entries; judged by TLC on the recorded trace","7 C03","wire"),
- "C04": ("model_checking","Gen_Evolve.tla enumerates schema-version pairs x nesting contexts, TLC checks Extends and ForwardCompat on the ideal decoder, the older version's real decoders (also under fragmenting readers) consume the newer version's reference bytes, TLC judges against RestrictTo; the known byte-path defect is attributed only when the observed value equals the as-is model's prediction","7 C04","wire"),
+ "C04": ("model_checking","Gen_Evolve.tla enumerates schema-version pairs x nesting contexts, TLC checks Extends and ForwardCompat on the ideal decoder, the older version's real decoders (also under fragmenting readers, and with a further unknown field of up to 70001 bytes in the evolved message) consume the newer version's reference bytes, TLC judges against RestrictTo; the known byte-path defect is attributed only when the observed value equals the as-is model's prediction","7 C04","wire"),
  "C05": ("model_checking","StreamCodec.tla (ideal element-wise decoder under ALL Deliver fragmentations and fault points; refines StreamAbs; terminates under WF) is model-checked; the real DecodeBebop's per-record observations (cap patterns, greedy/starved, seekable reader, last bytes delivered with io.EOF, payloads stretched to 4-70 KB) and its read-level traces (every Read call) are validated against StreamAbs by Trace_Stream.tla / Trace_Wire.tla","7 C05","wire"),
  "C06": ("model_checking","every cut point of every reference encoding into both real decoders (the stream decoder over a plain reader, a reader that delivers its last bytes with io.EOF, and a bytes.Reader) in a sandboxed worker (panic/oom/timeout/allocation observed), also under generator option sets; PrefixIsError model-checked on the ideal decoder for the same cuts; TLC judges each observation","7 C06","wire"),
  "C07": ("model_checking","TLC generates structure-aware corruptions from the layout (Mutations), checks DecTotal on the ideal decoder, the real decoders run them in a sandboxed worker; violations are attributed to the open allocation findings only where the as-is decoder models (ADec/SWalk in AsIs.tla) predict them","7 C07","wire"),
@@ -16,8 +16,8 @@ checks = {
  "C11": ("model_checking","BebopSchema.tla gives tokens and meaning (FileOf) of TLC-enumerated ASTs (definition sequences, field-variant sequences, all type expressions); the real ReadFile must return FileOf(ast) under 7 layouts (standard, CRLF, one line, airy, tight, several empty lines, next definition joined to the closing brace; with and without final newline), attributes above or below the documentation, trailing comments; judged by Trace_Parse.tla","7 C11","parser"),
  "C12": ("model_checking","TLC enumerates the program universe (shape x context x option set; records with two container fields, pseudo-random and random records; the schema of constants under every option set; 97 identifiers at 10 naming sites; every use of an imported definition under 5 type wrappers in both import modes, generated as a multi-package workspace); every accepted package is compiled by the Go compiler; TLC judges the generate events, attributing identifier clashes by the as-is predicate AsIsNameClash","7 C12","wire"),
  "C13": ("model_checking","Gen_Inject.tla: a reference validator (Violated) over the AST; TLC checks the base is well-formed and each of ~280 injections (hand-placed and mechanically placed at every field of every record incl. boundary indices; duplicates across the files of a combined import) violates exactly its rule, that every naming of the small schemas is well-formed, and gives the verdict for EVERY struct graph on 1-3 nodes x 5 edge kinds; Validate.tla model-checks the fixpoint loop as coded under every map iteration order (Exact, Sound, Terminates); the real ReadFile+Generate must agree","7 C13","parser"),
- "C16": ("model_checking","Format on every text of the C11 universe (7 layouts); output must re-parse to StripFile(FileOf(ast)); formatter defects are attributed by construct predicates over the token stream (Trace_Parse.tla)","7 C16","parser"),
- "C17": ("exploration","Format(Format(x)) = Format(x) on every text of the C11 universe (7 layouts) - a metamorphic law on the implementation over spec-enumerated inputs; verdict bookkeeping in Trace_Parse.tla","7 C17","parser"),
+ "C16": ("model_checking","Format on every text of the C11 universe (7 layouts) and on text-level variants of it (blanks in front of line ends, line breaks inside quoted literals); output must re-parse to StripFile(FileOf(ast)) - for the variants: to the File that ReadFile gives for the text itself; formatter defects are attributed by construct predicates over the token stream (Trace_Parse.tla)","7 C16","parser"),
+ "C17": ("exploration","Format(Format(x)) = Format(x) on every text of the C11 universe (7 layouts, plus text-level variants with blanks in front of LF/CRLF and line breaks inside quoted literals) - a metamorphic law on the implementation over spec-enumerated inputs; verdict bookkeeping in Trace_Parse.tla","7 C17","parser"),
  "C18": ("model_checking","Imports.tla: declarative meaning (reachable files, package graph, inline order) and the worklist/DFS algorithms as coded, model-checked equal on EVERY import graph up to 3 files (4 sampled) x package assignments x directory placements x modes; graphs are materialised on disk and generated by the real code; every distinct combined-mode output is compiled and compared, declaration by declaration, with the code generated for the inlined schema (also with umbrella files that only import); judged by Trace_Imports.tla; ladders for termination in practice","7 C18","imports"),
  "C20": ("model_checking","Gen_IoHelp.tla enumerates all 2^8/2^16 values and boundary/pseudo-random wider values, ReadOfWrite model-checked; direct calls to iohelp judged by Trace_IoHelp.tla against EncPrim/DecPrim; string bounds; every slice length 0..width+3 for the byte-slice functions; stale-scratch independence and Err after short reads over plain and standard (bytes.Reader, bytes.Buffer, bufio.Reader) readers","7 C20","iohelp"),
 }
